@@ -126,13 +126,14 @@ theorem oneshot_rule_deleted_after_run (a : ASys) (key : RegKey) (en : Bool) (x 
 
 /-! ## "with a non-persistent cron a reloaded location registers its scheduled rules again" -/
 
-/-- IndexedState + ephemeral cron: after a location is loaded, every scheduled rule it holds is registered under
-its key, in that location (whatever the registry contained before, e.g. nothing after a restart) -/
+/-- ephemeral cron, either State: after a location is loaded, every scheduled rule it holds is registered under
+its key, in that location (whatever the registry contained before, e.g. nothing after a restart). Until the repair of
+finding C15-linear-load this held for IndexedState only. -/
 theorem ephemeral_reregisters_on_load (a : ASys) (loc : String) (docs : List (String × AItem))
-    (hk : a.kind = .indexed) (hp : a.cfg.persistent = false) (id : String) (it : AItem)
+    (hp : a.cfg.persistent = false) (id : String) (it : AItem)
     (hit : aGet (evLoad a loc docs).items (loc, id) = some it) (hs : it.sched ≠ "") :
     aGet (evLoad a loc docs).reg (keyOf a.cfg loc id) = some ⟨it.sched, loc⟩ := by
-  rw [evLoad_indexed a loc docs hk] at hit ⊢
+  rw [evLoad_fold a loc docs] at hit ⊢
   refine loadIdx_fold_registers a.cfg loc hp docs { a with items := itemsNotOf a.items loc } rfl ?_ id it hit hs
   intro id' it' h1 _
   rw [itemsNotOf_get] at h1
@@ -141,13 +142,8 @@ theorem ephemeral_reregisters_on_load (a : ASys) (loc : String) (docs : List (St
 /-- a persistent cron is not touched when a location loads -/
 theorem persistent_load_keeps_registry (a : ASys) (loc : String) (docs : List (String × AItem))
     (hp : a.cfg.persistent = true) : (evLoad a loc docs).reg = a.reg := by
-  cases hk : a.kind with
-  | indexed =>
-    rw [evLoad_indexed a loc docs hk]
-    exact loadIdx_fold_reg_persistent loc docs { a with items := itemsNotOf a.items loc } hp
-  | linear =>
-    rw [evLoad_linear a loc docs hk]
-    exact loadLin_fold_reg loc docs { a with items := itemsNotOf a.items loc }
+  rw [evLoad_fold a loc docs]
+  exact loadIdx_fold_reg_persistent loc docs { a with items := itemsNotOf a.items loc } hp
 
 /-! ## negative theorems: where the code breaks "registered exactly while it exists" (each witness is replayed on
 the real code by `checks/c15.py`) -/
@@ -208,15 +204,14 @@ theorem overwrite_by_unscheduled_leaves_stale_registration :
     (evTick a (none, "r") true true).2 = ⟨true, none⟩ := by
   decide
 
-/-- **reload.** `LinearState.Load` calls no add hook: after a restart with an ephemeral cron the location's
-scheduled rule is stored but not registered, and no tick fires; IndexedState registers it again. -/
-theorem linear_reload_does_not_reregister :
-    let a := run (ASys.init .linear ephemeralById) [.add "A" "r" schedR, .cronReset, .load "A" [("r", schedR)]]
-    a.reg = [] ∧ storedList a = [((none, "r"), ⟨"0 0 1 1 *", "A"⟩)] ∧
-    (evTick a (none, "r") true true).2.fired = false ∧
-    (run (ASys.init .indexed ephemeralById) [.add "A" "r" schedR, .cronReset, .load "A" [("r", schedR)]]).reg
-      = [((none, "r"), ⟨"0 0 1 1 *", "A"⟩)] := by
-  decide
+/-- **reload.** After a restart with an ephemeral cron both states register the location's scheduled rule again
+when the location loads, and the tick runs it. (`LinearState.Load` called no add hook until the repair of finding
+C15-linear-load: the rule was stored, unregistered and never ran.) -/
+theorem reload_reregisters_in_both_states (kind : SKind) :
+    let a := run (ASys.init kind ephemeralById) [.add "A" "r" schedR, .cronReset, .load "A" [("r", schedR)]]
+    a.reg = [((none, "r"), ⟨"0 0 1 1 *", "A"⟩)] ∧ storedList a = [((none, "r"), ⟨"0 0 1 1 *", "A"⟩)] ∧
+    (evTick a (none, "r") true true).2 = ⟨true, some ("A", "r")⟩ := by
+  cases kind <;> decide
 
 /-- **lost one-shot.** A one-shot job that fires while its rule is disabled is consumed by the cron; the rule
 stays stored, is unregistered and is not run by any later tick. -/
